@@ -76,11 +76,7 @@ func (tt *testTrie) match(components []string) bool {
 		}
 		// See if there's a double-wildcard that may match the empty remaining components.
 		child := tt.children["**"]
-		if child != nil && child.present {
-			child.matched.Add(1)
-			return true
-		}
-		return false
+		return child != nil && child.match(components)
 	}
 	first, rest := components[0], components[1:]
 	child := tt.children[first]
